@@ -40,6 +40,23 @@ PURE = [
     ('bitskw', "Bits(bits=s)"), ('tofile', "TOFILE(s)"), ('uintbyte', "s[:8].uint if {L} >= 8 else None"), ('packbits', "bitstring.pack('bits, u3', s, 5)"),
     ('arraydata', "bitstring.Array('u2', s).tolist()"), ('arraytrail', "bitstring.Array('u3', s).trailing_bits"),
     ('fmt', "f'{{s}}'"), ('ltint', "s <= 3"),
+    # the object in argument position: the needle, operand, replacement or payload of an operation on an ordinary in-memory object
+    ('arg_find', "(lambda h: (h.find(s), h.rfind(s), h.find(s, bytealigned=True), h.rfind(s, bytealigned=True), list(h.findall(s)), "
+                 "list(h.findall(s, bytealigned=True)), s in h, h.startswith(s), h.endswith(s), h.startswith(s, 8), list(h.split(s))))"
+                 "(Bits(bin='00000000' + s.bin + '1' + s.bin))"),
+    ('arg_readto', "(lambda h: (h.readto(s), h.pos))(bitstring.ConstBitStream(bin='0000' + s.bin + '10' + s.bin))"),
+    ('arg_replace', "(lambda h: (h.replace(s, '0b10'), h.bin))(BitArray(bin='00000000' + s.bin + '1' + s.bin))"),
+    ('arg_replace_ba', "(lambda h: (h.replace(s, '0b10', bytealigned=True), h.bin))(BitArray(bin='00000000' + s.bin + '1' + s.bin))"),
+    ('arg_replace_with', "(lambda h: (h.replace('0b1', s), h.bin))(BitArray(bin='0101'))"),
+    ('arg_payload', "(lambda h: (h.append(s), h.prepend(s), h.insert(s, 2), h.overwrite(s, 1), h.bin))(BitArray(bin='0110'))"),
+    ('arg_stream_payload', "(lambda h: (h.insert(s), h.overwrite(s), h.append(s), h.bin, h.pos))(bitstring.BitStream(bin='0110', pos=1))"),
+    ('arg_setslice', "(lambda h: (h.__setitem__(slice(1, 3), s), h.__setitem__(0, s), h.bin))(BitArray(bin='0110'))"),
+    ('arg_bitwise', "(Bits({L}) | s, Bits(bin='1' * {L}) & s, Bits({L}) ^ s, (lambda h: (h.__ior__(s), h.bin))(BitArray({L})))"),
+    ('arg_eq', "(Bits(bin=s.bin) == s, Bits(bin='1') == s, Bits(bin=s.bin) != s, BitArray(bin=s.bin) == s)"),
+    ('arg_join', "(Bits().join([s, s]), Bits('0b1').join([s, '0b0', s]))"),
+    ('arg_iadd', "(lambda h: (h.__iadd__(s), h.bin))(BitArray(bin='01'))"),
+    ('arg_pack', "bitstring.pack('bits, u3, bits:{L}', s, 5, s)"),
+    ('arg_array', "(lambda a: (a.extend(s) if {L} % 2 == 0 else None, a.data.bin, bitstring.Array('u2', [1], trailing_bits=s).trailing_bits.bin if {L} < 2 else None))(bitstring.Array('u2', [1]))"),
 ]
 
 STREAM = [
